@@ -298,14 +298,9 @@ func kConc(args []string) (string, string) {
 		return "returned=not-all open=?", "VIOL c10-hang calls_did_not_return:" + hang
 	}
 	viol := ""
-	// A record the marshaler fails on leaves whatever the marshaler (and, when compressing, the gzip writer: at least an empty
-	// member) had written in the file. Such histories are outside C09's quantifier (its files are produced by successful writes);
-	// they are run for C10: every call returns, the failure comes back in the response, Close leaves no in-progress file.
-	failScenario := len(cm.fail) > 0
+	// A record the marshaler fails on: every call still returns, the failure comes back in the response, nothing of the record
+	// stays in the file (fix 29ef2be), so every other clause is judged as usual.
 	setViol := func(sig, detail string) {
-		if failScenario && strings.HasPrefix(sig, "c09-") {
-			return
-		}
 		if viol == "" {
 			viol = "VIOL " + sig + " " + sanitize(detail)
 		}
